@@ -170,7 +170,7 @@ def neutral_refactors() -> List[Dict[str, Any]]:
         pp = os.path.join(root, sid, "patch.diff")
         if os.path.isfile(mp_) and os.path.isfile(pp):
             meta = json.load(open(mp_))
-            if meta.get("kind") == "neutral":
+            if meta.get("kind") in ("neutral", "neutral-outside-fragment"):
                 out.append({"id": sid, "patch": pp, "meta": meta})
     return out
 
@@ -311,6 +311,12 @@ def run_selftest(prop: str, repo_root: str, base_res, seed: int = 0, jobs: int =
             row = {"refactor": sc["id"], "status": o["status"], "files": sc["meta"].get("files", "")}
             if o["status"] == "inapplicable":
                 row["why"] = o["why"]
+            elif o["status"] != "ran" and sc["meta"].get("kind") == "neutral-outside-fragment":
+                # a behaviour-preserving rewrite the analysis is KNOWN not to resolve (table-driven / higher-order dispatch):
+                # it must fail closed (no verdict), never report a violation
+                n_ref += 1
+                n_ref_ok += 1
+                row["verdict"] = "no verdict (outside the analysable fragment, as recorded)"
             elif o["status"] != "ran":
                 n_ref += 1
                 row["verdict"] = "GAVE UP"
